@@ -104,7 +104,7 @@ class Merged(object):
         return out
 
 
-def validate(merged, scratch, prefix, module='TraceFacts', chunk=40000, parallel=16, min_chunks=16):
+def validate(merged, scratch, prefix, module='TraceFacts', chunk=40000, parallel=16, min_chunks=16, env_extra=None):
     """TLC-judge every distinct fact.  Returns (n_judged, [indices rejected])."""
     n = len(merged.lines)
     if n == 0:
@@ -123,7 +123,7 @@ def validate(merged, scratch, prefix, module='TraceFacts', chunk=40000, parallel
             f.write('\n')
         paths.append(p)
         bases.append(lo)
-    res = tlc.validate_chunks(module, paths, scratch, prefix, parallel=parallel)
+    res = tlc.validate_chunks(module, paths, scratch, prefix, parallel=parallel, env_extra=env_extra)
     rejected = []
     judged = 0
     for (cnt, rej), base, p in zip(res, bases, paths):
